@@ -97,7 +97,10 @@ fn main() {
             oracle::bits::write(&mut z, 0, 12, n as u128);
             lines.push(mon::hex(&oracle::crc::frame(&z)));
             for _ in 0..per {
+                // hostile frames twice in a row: a build that remembers the previous decode
+                // (and a build that does not) must still agree
                 let (f, _) = gen::wire_frame(&mut rng, n);
+                lines.push(mon::hex(&f));
                 lines.push(mon::hex(&f));
             }
         }
